@@ -229,7 +229,21 @@ pub struct Case {
     /// response status (0 stands for 200): whether a body is decoded does not depend on it
     #[serde(default)]
     pub status: u16,
+    /// an unrelated header field next to the coding: 0 none, else an index into OTHER_FIELDS (whether
+    /// a declared coding is decoded does not depend on the media type or anything else)
+    #[serde(default)]
+    pub other: u8,
 }
+
+const OTHER_FIELDS: [&str; 7] = [
+    "",
+    "Content-Type: application/gzip",
+    "Content-Type: application/x-gzip",
+    "Content-Type: application/octet-stream",
+    "Content-Type: text/plain; charset=utf-8",
+    "Accept-Ranges: bytes",
+    "Vary: Accept-Encoding",
+];
 
 fn spellings(c: Coding) -> Vec<(&'static str, &'static str)> {
     match c {
@@ -239,6 +253,7 @@ fn spellings(c: Coding) -> Vec<(&'static str, &'static str)> {
             ("Content-Encoding", "identity, gzip"),
             ("Content-Encoding", "GZip"),
             ("Content-Encoding", "identity,\tgzip"),
+            ("Content-Encoding", "identity|gzip"),
             ("Transfer-Encoding", "gzip, chunked"),
         ],
         Coding::Deflate => vec![
@@ -247,6 +262,7 @@ fn spellings(c: Coding) -> Vec<(&'static str, &'static str)> {
             ("Content-Encoding", "identity,deflate"),
             ("Content-Encoding", "DEFLATE"),
             ("Content-Encoding", "identity ,\t deflate"),
+            ("content-encoding", "identity|Deflate"),
             ("Transfer-Encoding", "deflate, chunked"),
         ],
     }
@@ -321,8 +337,15 @@ fn build_wire(c: &Case, s: &Stream) -> (Vec<u8>, Vec<u8>, bool) {
         }
         Framing::Close => {}
     }
+    if c.other != 0 {
+        head.extend_from_slice(OTHER_FIELDS[c.other as usize].as_bytes());
+        head.extend_from_slice(b"\r\n");
+    }
     for (k, v) in fields {
-        head.extend_from_slice(format!("{k}: {v}\r\n").as_bytes());
+        // '|' in a spelling: the list is spread over several field lines
+        for line in v.split('|') {
+            head.extend_from_slice(format!("{k}: {line}\r\n").as_bytes());
+        }
     }
     head.extend_from_slice(b"\r\n");
     let mut wire = head;
@@ -497,6 +520,7 @@ fn cases_for(s: &Stream, tier: Tier) -> Vec<Case> {
         head_request: false,
         no_announce: 0,
         status: 0,
+        other: 0,
     };
     let nsp = spellings(s.coding).len();
     let head_len = 60; // heads are 40..80 bytes; cuts are placed relative to the end of the wire
@@ -598,6 +622,21 @@ fn cases_for(s: &Stream, tier: Tier) -> Vec<Case> {
                 if n > 12 {
                     let mut c = mk(framing, 0, Policy::default(), ReadMode::Const(7), Damage::TruncConsistent(n / 2));
                     c.status = status;
+                    v.push(c);
+                }
+            }
+        }
+    }
+    // unrelated fields next to the coding (a media type that itself says "gzip", ...)
+    if s.name.contains(".l6.") || s.name.contains(".fixed.") {
+        for other in 1..OTHER_FIELDS.len() as u8 {
+            for framing in [Framing::Length, Framing::Chunked, Framing::Close] {
+                let mut c = mk(framing, 0, Policy::default(), ReadMode::Bytes, Damage::None);
+                c.other = other;
+                v.push(c);
+                if n > 12 {
+                    let mut c = mk(framing, 0, Policy::default(), ReadMode::Const(7), Damage::TruncConsistent(n / 2));
+                    c.other = other;
                     v.push(c);
                 }
             }
